@@ -1,6 +1,6 @@
 SPECIFICATION TSpec
 CONSTANTS
-  Actors = {"S", "A", "B", "M", "L"}
+  Actors = {"S", "A", "B", "M", "L", "C"}
   NoA = "none"
   SupOf <- TrSupOf
   MaxMsgs <- TrMax
